@@ -3,6 +3,8 @@
      (2) parsed again as an object (as the Namespace itself and as its dict form) gives an EQUAL
          configuration: same keys, and per key the same value of the same kind
          (1 is not 1.0 is not True, a tuple is not a list; sets are compared as sets).
+     (3) dumped, parsed again as text, it gives an EQUAL configuration, and dumping that gives
+         byte-identical text.
    A rejected first parse demands nothing. *)
 From JV Require Import Lib.Base Model.C10Adapt.
 
@@ -50,5 +52,16 @@ Definition outcome_eqb {A} (eqb : A -> A -> bool) (a b : outcome A) : bool :=
 Definition fixed_point_spec {A} (eqb : A -> A -> bool) (first : outcome A) (valid : bool) (again : list (outcome A)) : bool :=
   match first with
   | Accepted w => valid && forallb (fun o => outcome_eqb eqb o (Accepted w)) again
+  | _ => true
+  end.
+
+(* the dump leg, on observations: parse_string(dump(cfg)) and the two dumped texts
+   (None = the dump raised) *)
+Definition dump_spec {A} (eqb : A -> A -> bool) (first : outcome A) (reparsed : outcome A)
+                     (text1 text2 : option str) : bool :=
+  match first with
+  | Accepted w =>
+      outcome_eqb eqb reparsed (Accepted w)
+      && match text1, text2 with Some a, Some b => str_eqb a b | _, _ => false end
   | _ => true
   end.
